@@ -9,7 +9,9 @@ THEOREMS = ["PLS.C04_inverse", "PLS.C04_unresolved", "PLS.C04_functional", "PLS.
 RULE = ("generated workspaces (as C01) plus edit histories over them; for EVERY (definition, usage) pair of the final "
         "index: usage listed under the definition <=> go-to-definition at the usage's first column lands on it; no "
         "duplicates; usages resolving to nothing listed nowhere. Pure cross-feature comparison of the implementation's "
-        "own answers, plus model correspondence. Non-trivial = at least two same-named definitions and three usages")
+        "own answers, plus model correspondence. Handler level: the real server over stdio on generated workspaces, "
+        "every code lens, references (with declaration) and incomingCalls answer compared with the Lean handler model, "
+        "and per definition: lens count = references minus the declaration = incoming calls. Non-trivial = at least two same-named definitions and three usages")
 
 
 def usage_pos(u):
@@ -81,7 +83,7 @@ def emit(cases, ws):
 
 
 def run(tier, seed):
-    r = Run(PROP, MODULE, THEOREMS, tier, seed)
+    r = Run(PROP, MODULE, THEOREMS, tier, seed, need_server=True)
     if not r.prepare():
         return r.finish(RULE)
     n = 120 if tier == "quick" else 2000
@@ -110,6 +112,8 @@ def run(tier, seed):
     r.evaluations = len(ia)
     r.correspond(cases, ia, ma)
     cross_check(r, cases, ia, ma, sp)
+    from .. import wire
+    wire.c04_wire(r, tier)
     return r.finish(RULE)
 
 
